@@ -28,6 +28,12 @@ note, untie, tie a new or an existing note on, rescale the whole part in place b
 at multiplied times) - a chain is one row whose duration is the timeline duration of its members as they are now.
 part-merged (thorough): the note array of the Part that merge_parts makes out of parts with unequal divisions.
 
+Inverse direction with measures (inverse-m1, inverse-m2, inverse-m3, inverse-mtrip): note arrays together with a time
+signature (ts_beats / ts_beat_type columns, time_sigs argument, estimate_time), so that note_array_to_score builds measures,
+a pickup measure for rows with negative beat onsets, and ties over barlines; division 0 is the start of the pickup measure,
+the first row may start later (the array opens with a rest or is an excerpt).  The note array of the rebuilt score must state
+the same beat onsets (as they are: the pickup is representable), durations, division columns and pitches.
+
 Nesting space (score-nest): 1-3 parts distributed in every way over a part list with PartGroups nested to a bounded depth
 (groups of one element included); the array of the list, of the Score made of it and of every group at any level is the
 union of the tables of the parts below it (same id readings as the other score spaces).
@@ -46,7 +52,8 @@ RULE = (
     "division tuples x contents; note arrays over small onset/duration/pitch alphabets); a case is distinct by "
     "construction; non-trivial = the array under test has at least one row; edit spaces: frame x content x every "
     "sequence of 1-2 edits of the alphabet, the arrays are taken before the first and after every edit (tie edit spaces: the "
-    "same with the alphabet of tie chain edits on a content with tie chains and notes that can be tied)"
+    "same with the alphabet of tie chain edits on a content with tie chains and notes that can be tied); inverse-m*: time "
+    "signature form x pickup length x sorted rows over position / duration alphabets x column kinds x voice column"
 )
 ASSUMPTIONS = [
     "parts are built through the public API (Part, add, set_quarter_duration, tie links); the first time point is 0",
@@ -63,6 +70,17 @@ ASSUMPTIONS = [
     "compared up to a common shift of the beat onsets; ids and voices of the rebuilt score are not compared",
     "inverse direction, generator preconditions: every zero-duration row (grace note) has a row of positive duration at "
     "the same or a later onset; division columns are consistent with the beat columns (onset_div = onset_beat x divs)",
+    "inverse direction with a time signature (inverse-m*): the array is the table of a part whose pickup measure (if any) "
+    "starts at division 0: onset_div = (onset_beat + pickup) x divisions per beat, pickup shorter than a measure, at least one "
+    "row inside a pickup (otherwise the array does not state it); beat onsets are compared as they are, without a common "
+    "shift, except for an array without pickup that ends before its first barline: note_array_to_score gives it one "
+    "incomplete measure, which the beat map reads as a pickup (common shift accepted; reported as a weakness, "
+    "proposed_fixes/C05-s-short-single-measure.diff); one constant time signature; without ts columns a beat is taken for a "
+    "quarter (documented), so the time_sigs / estimate_time forms and beat-only arrays use beat type 4; a grace note row has "
+    "its main note at the same onset in the same voice (create_part documents the removal of grace notes without main note); "
+    "pickups on a grid of halves or of thirds of a beat, not of both: for a beat-only array with a negative onset of -7/6 or "
+    "-5/6 beat (float32 below the exact value) the pickup length is truncated to one division less "
+    "(proposed_fixes/C05-s-anacrusis-rounding.diff)",
     "rest arrays: the dummy spelling columns are not compared; collapse=True is outside the statement; rest arrays of "
     "lists / groups are checked for parts with equal divisions only (no rescaling is stated for them), a one-element "
     "list may or may not prefix its ids",
@@ -820,6 +838,98 @@ def eval_inverse(case):
     return res
 
 
+def eval_inverse_measures(case):
+    """note array + time signature (columns, time_sigs argument or estimate_time) -> score with measures -> note
+    array: the same onsets, durations and pitches.  Division 0 of the array is the start of the pickup measure of
+    case['pickup'] beats (0: of the first measure); the beat onsets of the rows are stated from the end of it."""
+    import numpy as np
+    from partitura.musicanalysis.note_array_to_score import note_array_to_score
+
+    res = CaseResult(states=1, transitions=0, traces=1)
+    kind, divs, src, vm = case["kind"], case["divs"], case["src"], case["voice"]
+    nb, bt = case["ts"]
+    q = F(4, bt)  # quarters per beat
+    P = frac(case["pickup"])
+    rows = [(frac(o), frac(d), p) for o, d, p in case["rows"]]
+    ft = case.get("ftype", "f4")
+    cols = []
+    if kind in ("beat", "both"):
+        cols += [("onset_beat", ft), ("duration_beat", ft)]
+    if kind in ("div", "both"):
+        cols += [("onset_div", "i4"), ("duration_div", "i4")]
+    cols += [("pitch", "i4")]
+    if vm:
+        cols += [("voice", "i4")]
+    if src == "cols":
+        cols += [("ts_beats", "i4"), ("ts_beat_type", "i4")]
+    data = []
+    exp_div = []
+    for k, (o, d, p) in enumerate(rows):
+        od, dd = (o + P) * q * divs, d * q * divs
+        t = ()
+        if kind in ("beat", "both"):
+            t += (float(o), float(d))
+        if kind in ("div", "both"):
+            assert od.denominator == 1 and dd.denominator == 1 and od >= 0
+            t += (int(od), int(dd))
+            exp_div.append((int(od), int(dd), p))
+        t += (p,)
+        if vm:
+            t += (G.invm_voice(vm, k),)
+        if src == "cols":
+            t += (nb, bt)
+        data.append(t)
+    arr = np.array(data, dtype=cols)
+    ctx = "kind=%s ts=%d/%d by %s pickup=%s divs=%s rows=%s voice=%s" % (kind, nb, bt, src, case["pickup"], divs, case["rows"], vm)
+    kw = {}
+    if kind == "div":
+        kw["divs"] = divs
+    if src == "arg":
+        kw["time_sigs"] = [(0, nb, bt)]
+    elif src == "est":
+        kw["estimate_time"] = True
+    res.transitions += 2
+    ok, sc = call(res, "score-built-from-array", lambda: note_array_to_score(arr.copy(), **kw), ctx)
+    if not ok:
+        res.outcome = "inverse-exception"
+        return res
+    ok, na = call(res, "array-of-rebuilt-score", lambda: sc.note_array(), ctx)
+    if not ok:
+        res.outcome = "inverse-exception"
+        return res
+    if len(na) != len(rows):
+        res.fail("inverse-row-set", expected=len(rows), observed=len(na), where="note_array_to_score", detail=ctx)
+        res.outcome = "inverse-rows"
+        return res
+
+    def srt(lst):
+        return sorted(lst, key=lambda x: (round(x[0], 4), x[2], round(x[1], 4)))
+
+    # an array without a pickup that ends before its first barline: the rebuilt part has a single, incomplete
+    # measure, which partitura reads as a pickup measure (see ASSUMPTIONS): compared up to a common shift
+    short = P == 0 and max(o + d for o, d, _p in rows) < nb
+    if kind in ("beat", "both"):
+        exp = srt([(float(o), float(d), p) for o, d, p in rows])
+        ob = [(float(r["onset_beat"]), float(r["duration_beat"]), int(r["pitch"])) for r in na]
+        if short:
+            m0 = min(x[0] for x in ob) - exp[0][0]
+            ob = [(a - m0, b, c) for a, b, c in ob]
+        ob = srt(ob)
+        if any(abs(a[0] - b[0]) > 1e-5 or abs(a[1] - b[1]) > 1e-5 or a[2] != b[2] for a, b in zip(exp, ob)):
+            res.fail("inverse-beat", expected=exp, observed=ob, where="note_array_to_score", detail=ctx)
+    if kind in ("div", "both"):
+        exp = sorted(exp_div)
+        ob = sorted((int(r["onset_div"]), int(r["duration_div"]), int(r["pitch"])) for r in na)
+        if exp != ob:
+            res.fail("inverse-div", expected=exp, observed=ob, where="note_array_to_score", detail=ctx)
+    first = min(o for o, _d, _p in rows)
+    bars = [k * nb for k in range(0 if P else 1, 8)]
+    res.outcome = "inverse-m kind=%s by=%s rows=%d graces=%d pickup=%d lead-rest=%d short=%d over-barline=%d" % (
+        kind, src, len(rows), sum(1 for r in rows if r[1] == 0), 1 if P else 0, 1 if first + P > 0 else 0, 1 if short else 0,
+        sum(1 for o, d, _p in rows if any(o < b < o + d for b in bars)))
+    return res
+
+
 def eval_case(case):
     sp = case["sp"]
     if sp == "score-edit":
@@ -834,6 +944,8 @@ def eval_case(case):
         return eval_score(case)
     if sp == "rest-list":
         return eval_restlist(case)
+    if sp.startswith("inverse-m"):
+        return eval_inverse_measures(case)
     if sp.startswith("inverse"):
         return eval_inverse(case)
     return eval_part(case)
@@ -1186,6 +1298,41 @@ def gen_inverse_f8():
         yield dict(c, sp="inverse-f8", ftype="f8")
 
 
+B_INVM2 = 24
+B_INVM3 = 16
+B_INVMT = 12
+
+
+def gen_inverse_m1():
+    for c in G.inverse_measure_cases(G.INVM_TS, G.INVM_PICKUP, G.INVM_START, G.INVM_DUR, 1, voices=(0, 1), mults=(1, 2)):
+        yield dict(c, sp="inverse-m1")
+    for c in G.inverse_measure_cases(G.INVM_TS, G.INVM_PICKUP, G.INVM_START, G.INVM_DUR, 1, kinds=("both", "beat"), voices=(1,)):
+        yield dict(c, sp="inverse-m1", ftype="f8")
+
+
+def gen_inverse_m2(block=None):
+    for c in G.inverse_measure_cases(G.INVM_TS, G.INVM_PICKUP, G.INVM_START, G.INVM_DUR, 2):
+        c = dict(c, sp="inverse-m2")
+        if block is None or block_of(c, B_INVM2) == block:
+            yield c
+
+
+def gen_inverse_m3(block=None):
+    for c in G.inverse_measure_cases(G.INVM_TS, G.INVM_PICKUP, G.INVM_START3, G.INVM_DUR3, 3, kinds=("both", "beat"), voices=(0, 1)):
+        c = dict(c, sp="inverse-m3")
+        if block is None or block_of(c, B_INVM3) == block:
+            yield c
+
+
+def gen_inverse_mtrip(block=None):
+    for n in (1, 2):
+        for c in G.inverse_measure_cases(G.INVM_TS_TRIP, G.INVM_PICKUP_TRIP, G.INVM_START_TRIP, G.INVM_DUR_TRIP, n,
+                                         voices=(0, 1)):
+            c = dict(c, sp="inverse-mtrip")
+            if block is None or n == 1 or block_of(c, B_INVMT) == block:
+                yield c
+
+
 def spaces(tier, seed):
     nf = len(G.frame_keys())
     fb = "frames: %d valid of meters %s x division plans %s x key plans %s" % (nf, G.METER_NAMES, G.DIVPLANS, G.KEYPLANS)
@@ -1312,6 +1459,34 @@ def spaces(tier, seed):
         out.append(Space("inverse3", lambda: gen_inverse(tier, 3), True, "note arrays of 3 rows (sorted row order)"))
     out.append(Space("inverse-neg", gen_inverse_neg, True, "2-row arrays with negative beat onsets (pickup-like)"))
     out.append(Space("inverse-f8", gen_inverse_f8, True, "2-row arrays with float64 beat columns"))
+    mb = ("note arrays with a time signature, so that note_array_to_score builds measures, a pickup measure and ties over "
+          "barlines: time signature given by ts_beats / ts_beat_type columns (3/4, 2/4, 6/8, 2/2), the time_sigs argument "
+          "(3/4, 4/4) or estimate_time (4/4) x pickup measure of {0, 1/2, 1, 3/2} beats whose start is division 0 (onset_beat "
+          "= position - pickup, at least one row starts inside a pickup) x rows (sorted) at positions %s beats after division "
+          "0 (a position > 0 of the first row = the array opens with a rest / is a later excerpt) x durations %s beats "
+          "(over one or more barlines; 0 = grace note with its main note at the same onset in the same voice) x {beat + "
+          "division columns, beat columns (beat type 4), division columns (no pickup)} x voice column {none, voices "
+          "alternating, one voice}; beat onsets are compared as they are (no common shift) unless the array has no pickup "
+          "and ends before its first barline" % ([str(x) for x in G.INVM_START], [str(x) for x in G.INVM_DUR]))
+    out.append(Space("inverse-m1", gen_inverse_m1, True,
+                     mb + "; arrays of 1 row: voice column {none, present} x divisions x {1, 2}, float32 and (with a voice column) float64 beat columns"))
+    tb3 = "3 rows (sorted): positions %s x durations %s, kinds {both, beat}, voice column {none, alternating}" % (
+        [str(x) for x in G.INVM_START3], [str(x) for x in G.INVM_DUR3])
+    tbt = ("triplet grid, 1-2 rows: time signatures %s x pickup %s x positions %s x durations %s (thirds only: a negative "
+           "onset of a half plus a third of a beat, -7/6 or -5/6, is not enumerated, see proposed_fixes/C05-s-anacrusis-rounding.diff), "
+           "every kind, voice column {none, alternating}" % (
+               G.INVM_TS_TRIP, [str(x) for x in G.INVM_PICKUP_TRIP], [str(x) for x in G.INVM_START_TRIP], [str(x) for x in G.INVM_DUR_TRIP]))
+    if tier == "quick":
+        b = seed % B_INVM2
+        out.append(Space("inverse-m2", lambda b=b: gen_inverse_m2(b), True, "as inverse-m1 with 2 rows (sorted; pitches (60,64) and (61,61)): block %d of %d" % (b, B_INVM2)))
+        b = seed % B_INVM3
+        out.append(Space("inverse-m3", lambda b=b: gen_inverse_m3(b), True, "as inverse-m1 with " + tb3 + ": block %d of %d" % (b, B_INVM3)))
+        b = seed % B_INVMT
+        out.append(Space("inverse-mtrip", lambda b=b: gen_inverse_mtrip(b), True, "as inverse-m1 on a " + tbt + ": 1 row complete, 2 rows block %d of %d" % (b, B_INVMT)))
+    else:
+        out.append(Space("inverse-m2", lambda: gen_inverse_m2(None), True, "as inverse-m1 with 2 rows (sorted; pitches (60,64) and (61,61))"))
+        out.append(Space("inverse-m3", lambda: gen_inverse_m3(None), True, "as inverse-m1 with " + tb3))
+        out.append(Space("inverse-mtrip", lambda: gen_inverse_mtrip(None), True, "as inverse-m1 on a " + tbt))
     return out
 
 
